@@ -1,4 +1,5 @@
 """C01 - evaluated points equal the B-spline/NURBS definition (explorer E1)."""
+import copy
 import itertools
 from fractions import Fraction as F
 
@@ -205,6 +206,24 @@ def run_case(case, ctx):
         elif pd == 2:
             d0 = obj.derivatives(prm[0], prm[1], 0)
             ctx.close('C01.derivatives0', d0[0][0], exp[prm], TOL, scale, dict(rc, params=[[x] for x in prm]), f2)
+    # -- the same entry points with the documented alternative evaluator installed (non-rational curves and surfaces)
+    if pd <= 2 and not desc['rational']:
+        from geomdl import evaluators
+        alt = copy.deepcopy(obj)
+        alt.evaluator = evaluators.CurveEvaluator2() if pd == 1 else evaluators.SurfaceEvaluator2()
+        for prm in plist[:: max(1, len(plist) // 9)]:
+            f2 = dict(feats, evaluator='alternative')
+            rc2 = dict(rc, params=[[x] for x in prm])
+            try:
+                if pd == 1:
+                    got, d0 = alt.evaluate_single(prm[0]), alt.derivatives(prm[0], 0)[0]
+                else:
+                    got, d0 = alt.evaluate_single(list(prm)), alt.derivatives(prm[0], prm[1], 0)[0][0]
+            except Exception as e:
+                ctx.check('C01.alternative_evaluator.derivatives0', False, rc2, f2, 'a point', repr(e))
+                continue
+            ctx.close('C01.alternative_evaluator.evaluate_single', got, exp[prm], TOL, scale, rc2, f2)
+            ctx.close('C01.alternative_evaluator.derivatives0', d0, exp[prm], TOL, scale, rc2, f2)
     # -- evaluate_list
     args = [p[0] for p in plist] if pd == 1 else [list(p) for p in plist]
     got = obj.evaluate_list(args)
